@@ -184,7 +184,7 @@ func clipRings(box orb.Bound, rings []orb.Ring) (open []orb.LineString, closed [
 			continue // outside of bound
 		}
 
-		if r.Closed() {
+		if len(r) >= 2 && r[0] == r[len(r)-1] {
 			// if the input was a closed ring where the endpoints were within the bound,
 			// then join the sections.
 
